@@ -179,6 +179,14 @@ def gen_cases(rng, tier):
       node = {"k": "product", "a": [spec.gen_form(rng, positive=True), node]}
     rs = sorted(set([round(r0, 12), round(r0 * 0.5, 6), round(r0 * 1.5, 6), round(r0 + 0.25, 6), max(0.1, round(r0 - 0.25, 6))]))
     cases.append({"kind": "tree", "route": "potable" if i % 2 else "api", "node": node, "forms": [], "tables": [], "rs": rs, "nonpositive_base": repr(n_)})
+  # NEGATIVE arguments (what an inner definition sees under trans() with a negative shift, or a callable evaluated left of the
+  # origin): a component without an analytic derivative is differenced there as anywhere else, both stencil points left of 0
+  for i in range(10 if tier == "quick" else 80):
+    num = {"k": "py", "expr": ["+", ["*", ["num", spec.rfloat(rng, 0.05, 0.5)], ["*", ["var", "r"], ["var", "r"]]], ["*", ["num", spec.rfloat(rng, -1.0, 1.0)], ["var", "r"]]], "d1": None, "d2": None}
+    ana = {"k": "form", "name": "polynomial", "p": [spec.rfloat(rng, -2.0, 2.0), spec.rfloat(rng, -1.0, 1.0), spec.rfloat(rng, 0.01, 0.2)]}
+    node = {"k": ["sum", "product"][i % 2], "a": [ana, num] if i % 4 < 2 else [num, ana]}
+    rs = sorted(set([-round(rng.uniform(0.5, 9.0), 3) for _ in range(5)] + [-1e-3, round(rng.uniform(0.5, 3.0), 3)]))
+    cases.append({"kind": "tree", "route": "api", "node": node, "forms": [], "tables": [], "rs": rs, "mixed": True, "negative_arguments": 1})
   # pow() whose base is identically ZERO over a stretch (a multi-range base switched off beyond r0, as.zero): with a
   # positive exponent - constant and fractional, or itself a function of r - the energy is the constant 0 there, so the
   # offered derivatives are 0 (not 0 * 0**-0.5, not log(0))
@@ -315,6 +323,8 @@ def run_case(case, ctx):
   ctx.cls("all_analytic" if o.analytic else "has_numeric_component")
   if case.get("nonpositive_base"):
     ctx.cls("pow_constant_exponent_nonpositive_base:" + case["nonpositive_base"])
+  if case.get("negative_arguments"):
+    ctx.cls("negative_arguments_numeric_fallback")
   if case.get("zero_base_stretch"):
     ctx.cls("pow_base_identically_zero_over_a_stretch")
   if case.get("int_exponent"):
